@@ -680,6 +680,14 @@ def op_stack(h, e):
             v.box = [rand_box(rng)]
         elif rng.random() < 0.2:
             v.box = None if v.box is not None else [rand_box(rng)]
+        if v.bonds is not None and rng.random() < 0.3:
+            # the later arrays need not carry the same bond list (one bond removed, or none at all): the stack takes
+            # the bonds of the first array
+            if v.bonds and rng.random() < 0.6:
+                del v.bonds[sorted(v.bonds)[int(rng.integers(len(v.bonds)))]]
+            else:
+                v.bonds = None
+            ctx.op("stack_arrays_with_other_bonds")
         arrs.append(build_real(v)); models.append(v)
     ctx.log("stack", k, [m_.box is not None for m_ in models]); ctx.op("stack")
     res = struc.stack(arrs if rng.random() < 0.7 else tuple(arrs))
